@@ -13,7 +13,7 @@ CLAIMED = {
     "C03": {
         "engine": "E1 syncorder",
         "technique": "static analysis: MIR must-complete-before / cannot-start-before ordering over the sync protocol (dominance in the Ok-pruned CFG + spawn/join strand model); provenance of written page numbers (copy-on-write)",
-        "text": "Decides the commit-protocol ordering skeleton for every path: every pre-meta write (wal, ln, bbn) is complete and result-checked before Meta::write; hash-table writes, WAL truncation and rollback-log pruning start only after it; WAL redo is gated by sequence-number equality and the WAL carries the same sequence number as the meta page; ln/bbn/free-list page writers obtain page numbers only from the allocator (no page of the previous committed state is overwritten before the switch-over) and the value files are resized at one site. That is the part of crash atomicity visible in the shape of the code; data-level recovery correctness is not decided.",
+        "text": "Decides the commit-protocol ordering skeleton for every path: every pre-meta write (wal, ln, bbn) is complete and result-checked before Meta::write; hash-table writes, WAL truncation and rollback-log pruning start only after it; WAL redo is gated by sequence-number equality and the WAL carries the same sequence number as the meta page; every bucket change and data page of the post-meta writeout has a WAL entry for the same bucket between reset and finalize; ln/bbn/free-list page writers obtain page numbers only from the allocator (no page of the previous committed state is overwritten before the switch-over) and the value files are resized at one site. That is the part of crash atomicity visible in the shape of the code; data-level recovery correctness is not decided.",
         "design_ref": "DESIGN.md 4 (E1), 5 (C03)",
         "note": _NOTE,
     },
